@@ -142,6 +142,22 @@ fn cosmetic_script(lists: &[(&[&str], u8)], resources: Vec<Resource>, url: &str)
     })
 }
 
+/// The same question put to an engine that received the rules as bytes (`Engine::new`, the same
+/// resources, `deserialize` of what the built engine serialises to).
+fn cosmetic_script_reloaded(lists: &[(&[&str], u8)], resources: Vec<Resource>, url: &str) -> Result<String, String> {
+    catch(|| {
+        let mut fs = FilterSet::new(false);
+        for (rules, perm) in lists {
+            fs.add_filters(*rules, opts_perm(*perm));
+        }
+        let bytes = engine_from_set(fs, true).serialize_raw().expect("a built engine serialises");
+        let mut e = adblock::Engine::new(true);
+        e.use_resources(resources);
+        e.deserialize(&bytes).expect("its own bytes load");
+        e.url_cosmetic_resources(url).injected_script
+    })
+}
+
 /// `lists`: the masks of the rule lists that each carry the rule `example.com##+js(p)`.
 fn check_a_path(shape: u8, r: u8, masks: &[u8], l: &mut Local) {
     l.evaluations += 1;
@@ -156,11 +172,17 @@ fn check_a_path(shape: u8, r: u8, masks: &[u8], l: &mut Local) {
         + masks.iter().map(|m| (*m as u64).count_ones() as u64).sum::<u64>() * 10_000
         + (r as u64 + masks.iter().map(|m| *m as u64).sum::<u64>()) * 4
         + shape as u64;
-    let out = match cosmetic_script(&lists, res, "https://example.com/") {
+    // two routes to the same engine: built from the lists, and loaded from the built engine's bytes
+    // (the second one for lists of several masks, where the bytes carry one mask per request)
+    for route in 0..(1 + (masks.len() > 1) as usize) {
+    let case = case.clone();
+    let route_name = if route == 0 { "" } else { ".reloaded-engine" };
+    let answer = if route == 0 { cosmetic_script(&lists, res.clone(), "https://example.com/") } else { cosmetic_script_reloaded(&lists, res.clone(), "https://example.com/") };
+    let out = match answer {
         Ok(o) => o,
         Err(loc) => {
             l.mismatch(Mismatch {
-                sig: format!("c18.perm.path.panic@{}", loc),
+                sig: format!("c18.perm.path{}.panic@{}", route_name, loc),
                 what: format!("engine build / url_cosmetic_resources panicked at {}", loc),
                 case,
                 size,
@@ -218,7 +240,8 @@ fn check_a_path(shape: u8, r: u8, masks: &[u8], l: &mut Local) {
         ));
     }
     if let Some((sig, what)) = bad {
-        l.mismatch(Mismatch { sig, what, case, size });
+        l.mismatch(Mismatch { sig: format!("{}{}", sig, route_name), what: format!("{}{}", what, if route == 1 { " (engine loaded from the built engine's bytes)" } else { "" }), case, size });
+    }
     }
 }
 
